@@ -63,7 +63,8 @@ def gen_value(rng, allow_fold=True):
         if i:
             s = rng.randrange(10)
             if allow_fold and s < 3:
-                out += rng.choice([b'\n ', b'\n\t', b'\n\t ', b'\n  ', b'\n \t'])
+                out += rng.choice([b'\n ', b'\n\t', b'\n\t ', b'\n  ', b'\n \t', b'\n\t\n ', b'\n\t\t\n\t ', b'\n \n\t',
+                                   b'\n\t\n\t\n\t'])
             elif s < 8:
                 out += b' '
             elif s == 8:
@@ -81,7 +82,16 @@ def gen_value(rng, allow_fold=True):
 def gen_fields(rng, maxn=40):
     n = rng.choice([0, 1, 2, 3, 4, 6, 8, 12, 20, maxn])
     pool = rng.sample(NAMES, rng.randrange(1, len(NAMES)))
-    return [(rng.choice(pool), rng.choice([b' ', b' ', b' ', b'', b'\t', b'  ', b' \t']), gen_value(rng)) for _ in range(n)]
+    out = []
+    for _ in range(n):
+        k, sep, v = rng.choice(pool), rng.choice([b' ', b' ', b' ', b'', b'\t', b'  ', b' \t', b' ', b' ', b'\n\t\n ', b'\n ']), gen_value(rng)
+        if b'\n' in sep:
+            # the value begins on a continuation line: what follows the blanks after the colon IS the value (findheader), so
+            # the fold - and the blank that introduces the continuation - belong to it
+            i = sep.index(b'\n')
+            sep, v = sep[:i], sep[i:] + v
+        out.append((k, sep, v))
+    return out
 
 
 def gen_body(rng, wf=True):
@@ -219,6 +229,9 @@ def gen_mime(rng, depth=0, maxdepth=None, bad=True):
     nparts = rng.choice([0, 1, 2, 2, 3, 4, 17 if depth == 0 else 3, 60 if depth == 0 and rng.randrange(4) == 0 else 2])
     kind = rng.randrange(14) if bad else 99
     param = b'; boundary="' + b + b'"'
+    if rng.randrange(4) == 0:
+        # further parameters after the boundary, quoted ones included (multipart/related type=, multipart/signed micalg= protocol=)
+        param += rng.choice([b'; type="text/html"', b'; micalg="sha1"; protocol="application/pgp-signature"', b'; charset=utf-8', b';x="', b' ; start="<a@b>"'])
     if kind == 0:
         param = b'; boundary=' + b                    # unquoted: not recognised
     elif kind == 1:
@@ -289,7 +302,8 @@ def render_tree(t, rng):
             body += b'=\n'            # quoted-printable: the final newline was written as =0A; a soft break ends the line
         return b''.join(h + b'\n' for h in hs) + b'\n' + body
     _, sub, b, kids, pre, epi = t
-    out = b'Content-Type: multipart/' + sub + b'; boundary="' + b + b'"\n\n' + pre
+    extra = rng.choice([b'', b'', b'; type="text/html"', b'; micalg="sha1"; protocol="application/pgp-signature"', b'; charset="utf-8"']) if rng is not None else b''
+    out = b'Content-Type: multipart/' + sub + b'; boundary="' + b + b'"' + extra + b'\n\n' + pre
     for k in kids:
         out += b'--' + b + b'\n' + render_tree(k, rng)
     out += b'--' + b + b'--\n' + epi
